@@ -52,6 +52,10 @@ def _make_slotted():
     return o
 
 
+# (not TimeoutError: asyncio itself replaces a TimeoutError that comes out of an executor future by a copy - DESIGN 6.4)
+ERR_CLASSES = (Err, RuntimeError, NotImplementedError, LookupError, KeyError, OSError)
+
+
 def _Slotted():
     """a callable object with no instance dictionary"""
     return _make_slotted()
@@ -72,7 +76,11 @@ class WrappersDriver:
         self.warm = None
         self.first_use = None
         self.wrong_receiver = False
-        self.VAL, self.ERR, self.BASE = Falsy("value"), Err("fn failed"), Base("fn base")
+        # "exceptions of arbitrary type": the class of the function's exception rotates over the scenarios - the library's
+        # own machinery (executors, futures, task groups) raises some of these itself and must not mistake the function's
+        errcls = ERR_CLASSES[(self.s["depth"] + 3 * bool(self.s["sets"]) + len(self.s["sig"]) + len(self.s["kind"])) % len(ERR_CLASSES)]
+        self.VAL, self.ERR, self.BASE = Falsy("value"), errcls("fn failed"), Base("fn base")
+        self.runs = 0
         self.AW = self.w.loop.create_future()      # an awaitable object returned as a plain value
         self.AW.set_result("what awaiting the returned object would give")
         self.metrics = []
@@ -87,8 +95,10 @@ class WrappersDriver:
         on_loop = threading.get_ident() == self.loop_thread
         ok = (a, b, tuple(args), dict(kwargs)) == EXPECT[self.s["sig"]]
         label = w.metrics_label() if self.s["kind"].startswith("traced") else None
+        self.runs += 1
         self.inside = (w.lookup("A"), "on_loop" if on_loop else "off_loop",
-                       self.first_use or ("wrong receiver" if self.wrong_receiver else "args_ok" if ok
+                       self.first_use or (f"the function ran {self.runs} times for one call" if self.runs > 1
+                                          else "wrong receiver" if self.wrong_receiver else "args_ok" if ok
                                           else f"args {a, b, args, kwargs}"))
         self.label_seen = label
         if self.s["sets"]:
